@@ -305,9 +305,11 @@ def to_str(component: BinaryStr) -> str:
         return f"sha256digest={component[offset:].hex()}"
     elif typ == TYPE_PARAMETERS_SHA256:
         return f"params-sha256={component[offset:].hex()}"
-    elif typ in ALTERNATE_URI_TYPE:
+    elif typ in ALTERNATE_URI_TYPE and length <= 8:
         return ALTERNATE_URI_TYPE[typ].format(int.from_bytes(component[offset:], 'big'))
     else:
+        # A value longer than 8 bytes is not a NonNegativeInteger: no number shorthand, print it like any other type
+        # (a received name may carry thousands of bytes there, more digits than int-to-str conversion allows)
         ret = ""
         if typ != TYPE_GENERIC:
             ret = f"{typ}="
